@@ -2200,6 +2200,16 @@ class Interp:
         if name == "copy.deepcopy" or name == "copy.copy":
             return self.deepcopy(a[0])
         if name == "dataclasses.replace":
+            src = a[0]
+            if isinstance(src, Rec) and not self.is_namedtuple(src.cls) and not self.find_method(src.cls, "__init__"):
+                # replace() builds a new object through __init__ (so __post_init__ runs again); field values are passed on as they are
+                names = [n for n, _ in self.class_fields(src.cls)]
+                unknown = [k_ for k_ in kwargs if k_ not in names]
+                if unknown:
+                    raise PyRaise("TypeError", node, f"replace() got an unexpected field {unknown[0]}")
+                vals = {n: src.f[n] for n in names if n in src.f}
+                vals.update(kwargs)
+                return self.construct(src.cls, [], vals)
             r = self.deepcopy(a[0])
             r.f.update(kwargs)
             return r
